@@ -139,11 +139,17 @@ def run(ctx, tier):
         results.append(ok(rule, 'open observes the file only under the lock (%d observations) and passes no explicit length to the map (%d)' % (len(Os), nlen), sites=len(Os) + 1))
     # ---- lock-lives
     rule = 'C13.lock-lives'
-    for e in good:
-        n = T.nodes[e['node']]
-        fn = n.fn
+    # judged inside DBInner::open with its private helpers folded in (lock_file(..), from_parts(..) ...)
+    XO = ctx.x(dbopen)
+    xsites = [(XO, bb) for bb, t, c in calls_named(F, XO, 'FileExt::lock_exclusive')]
+    lock_sites = xsites if xsites else [(T.nodes[e['node']].fn, T.nodes[e['node']].bb) for e in good]
+    loc_of = {}
+    for e, (fn, lbb) in zip(good + good, lock_sites):
+        loc_of[(id(fn), lbb)] = fn.loc(lbb)
+    for (fn, lbb) in lock_sites:
+        e = dict(loc=fn.loc(lbb))
         du = ctx.du(fn)
-        t = fn.term(n.bb)
+        t = fn.term(lbb)
         l = op_local(t['args'][0])
         root = du.root_of(l) if l is not None else None
         kept = set()
@@ -175,7 +181,9 @@ def run(ctx, tier):
     dbt = F.adt('DB')
     okarc = dbt and any(f['ty'] == 'std::sync::Arc<db::DBInner>' for f in dbt['variants'][0]['fields'])
     byval = [a['name'] + '.' + f['name'] for a in F.doc['adts'] for v in a['variants'] for f in v['fields'] if f['ty'] == 'db::DBInner']
-    builders = [fn.qual for fn in F.fns if aggregates_of(fn, 'DBInner')]
+    folded = set(getattr(XO, 'inlined', ()))
+    import c03
+    builders = sorted({dbopen.qual if (fn.qual in folded and c03._only_via(F, fn, dbopen)) else fn.qual for fn in F.fns if aggregates_of(fn, 'DBInner')})
     if okarc and not byval and builders == [dbopen.qual]:
         results.append(ok(rule, 'DBInner (holding the locked File) is built only in DBInner::open and owned only through DB\'s Arc; no unlock / try_clone / raw-fd escape (%d forbidden calls)' % nforb, sites=1))
     else:
